@@ -8,6 +8,7 @@
 #define SPECTRA_SYM_GEIGS_REG_INV_OP_H
 
 #include <Eigen/Core>
+#include <stdexcept>
 
 #include "../SparseSymMatProd.h"
 #include "../SparseRegularInverse.h"
@@ -44,7 +45,10 @@ public:
     ///
     SymGEigsRegInvOp(const OpType& op, const BOpType& Bop) :
         m_op(op), m_Bop(Bop), m_cache(op.rows())
-    {}
+    {
+        if (op.rows() != Bop.rows())
+            throw std::invalid_argument("SymGEigsRegInvOp: the A and B matrix operations must have the same size");
+    }
 
     ///
     /// Move constructor.
